@@ -19,6 +19,7 @@ type ruxStep struct {
 	Op      string   `json:"op"`
 	Prefix  []string `json:"prefix"`
 	Path    []string `json:"path"`
+	Base    []string `json:"base"`
 	Mw      int      `json:"mw"`
 	Scripts []string `json:"scripts"`
 	Ms      []string `json:"ms"`
@@ -121,6 +122,9 @@ func (x *ruxExec) run(prog []ruxStep, i int) int {
 			x.r.Use(x.mws(pos, st)...)
 		case "add":
 			x.routes = append(x.routes, x.r.Add(tokStr(st.Path), x.handler(pos, 0, mainScript(st.Main)), st.Ms...).Use(x.mws(pos, st)...))
+		case "res":
+			x.r.Resource(tokStr(st.Base), &Regres{h: x.handler(pos, 0, mainScript(st.Main))}, x.mws(pos, st)...)
+			x.routes = append(x.routes, x.r.GetRoute("regres_index"))
 		case "ruse":
 			x.routes[st.Route-1].Use(x.mws(pos, st)...)
 		case "serve":
@@ -172,11 +176,16 @@ func ruxReplay(s *Summary, raw json.RawMessage) {
 				out = append(out, fmt.Sprintf("Use(%v)", st.Scripts))
 			case "add":
 				out = append(out, fmt.Sprintf("Add(%q,%v,%v)", tokStr(st.Path), st.Ms, st.Scripts))
+			case "res":
+				out = append(out, fmt.Sprintf("Resource(%q,&Regres{},%v)", tokStr(st.Base), st.Scripts))
 			case "ruse":
 				out = append(out, fmt.Sprintf("Route#%d.Use(%v)", st.Route, st.Scripts))
 			}
 		}
 		return strings.Join(out, " ") + fmt.Sprintf(" [hmna=%v cache=%d]", serve.Hmna, serve.Cap)
+	}
+	for _, st := range c.H[:nprog] {
+		s.addInfo("statements_"+st.Op, 1)
 	}
 	if len(s.Samples) < 2 {
 		s.sample(map[string]any{"program": text(), "requests": len(c.H) - nprog - 1})
